@@ -9,6 +9,7 @@ import (
 	"0chain.net/chaincore/chain"
 	"0chain.net/chaincore/round"
 	"0chain.net/chaincore/threshold/bls"
+	"0chain.net/core/cache"
 )
 
 // Forwarding wrappers / field accessors for the verification harness (cmd/minerproto).
@@ -72,4 +73,19 @@ func (mc *Chain) VerifGenerateBlock(ctx context.Context, b *block.Block, bsh cha
 
 func (mc *Chain) VerifVerifySmartContracts(ctx context.Context, b *block.Block) error {
 	return mc.verifySmartContracts(ctx, b)
+}
+
+// VerifResetNotarizationState empties the per-block notarization bookkeeping (an explorer re-uses
+// one miner chain object for many scenarios about the same block hash).
+func (mc *Chain) VerifResetNotarizationState() {
+	mc.nbpMutex.Lock()
+	mc.notarizationBlockProcessMap = make(map[string]struct{})
+	mc.nbpMutex.Unlock()
+	mc.nbmMutex.Lock()
+	mc.notarizingBlocksTasks = make(map[string]chan struct{})
+	mc.notarizingBlocksResults = cache.NewLRUCache[string, bool](1000)
+	mc.nbmMutex.Unlock()
+	for len(mc.notarizationBlockProcessC) > 0 {
+		<-mc.notarizationBlockProcessC
+	}
 }
